@@ -12,7 +12,7 @@
      stale_refuted, legacy_stale_return_refuted, legacy_early_failure_refuted   witnesses
      spec_holdsb_sound / spec_holdsb_complete     the executable judge decides the spec
      judge_accepts_model                  the judge never rejects the model's own observations (outside the known class) *)
-From CSL Require Import Base.Prelude Num.Value Collateral.ValueLemmas Collateral.Collateral.
+From CSL Require Import Base.Prelude Num.Value Num.ValueNorm Num.ValueNormProofs Collateral.ValueLemmas Collateral.Collateral.
 Local Open Scope N_scope.
 
 Definition vals_sorted (l : list value) : Prop := Forall (fun v => value_sorted v = true) l.
@@ -268,13 +268,22 @@ Section Proofs.
       + constructor; [exact Hv'|]. apply IH. exact Hm'.
   Qed.
 
+  (* push_input stores the amount without its empty entries (Num/ValueNorm.v): still sorted *)
+  Lemma value_sorted_without_empty_entries : forall v, value_sorted v = true -> value_sorted (value_without_empty_entries v) = true.
+  Proof.
+    intros v. unfold value_sorted, value_without_empty_entries. cbn [multiasset_of]. destruct (multiasset_of v) as [m|]; [|reflexivity].
+    unfold ma_sorted. intros H. apply andb_true_iff in H. destruct H as [H1 H2]. apply andb_true_iff. split.
+    - apply ma_drop_empty_sorted. exact H1.
+    - apply ma_drop_empty_inner_sorted. exact H2.
+  Qed.
+
   Lemma col_of_list_sorted : forall l, vals_sorted (map snd l) -> col_sorted (col_of_list l).
   Proof.
     intro l. unfold col_of_list.
     assert (G : forall acc, col_sorted acc -> vals_sorted (map snd l) ->
-                col_sorted (fold_left (fun m kv => col_insert (fst kv) (snd kv) m) l acc)).
+                col_sorted (fold_left (fun m kv => col_insert (fst kv) (value_without_empty_entries (snd kv)) m) l acc)).
     { induction l as [|[k v] l IH]; intros acc Ha Hl; cbn [fold_left]; [exact Ha|].
-      inversion Hl; subst. apply IH; [apply col_insert_sorted; assumption|assumption]. }
+      inversion Hl; subst. apply IH; [apply col_insert_sorted; [apply value_sorted_without_empty_entries|]; assumption|assumption]. }
     apply G. constructor.
   Qed.
 
